@@ -505,6 +505,14 @@ def _mirsym():
         bounds="6 (quick) / 9 (thorough) row sequences of 2-4 rows over columns a, b, timestamp with kinds Int / Float / NULL / Str, values symbolic; the wall clock stubbed to a fixed instant; HashMap<String, ColumnBuffer> as association list",
         spec=seb.TableBufferRowsSpec(), stubs=["SystemTime::now / duration_since / Duration::as_millis -> fixed instant", "HashMap<String,V> -> association list (entry / or_default)"])
 
+    from .specs import compaction as scp
+    add("C07.c/plan_compaction", "C07", "mirsym", Q,
+        "Table::plan_compaction: the partitions a compaction merges are a suffix of the table in row-offset order (whatever order the partition map yields them in), starting at the first partition whose size * combine_factor is below the total size from there on; their ids are listed in row order and the row range returned is exactly their rows - so the merged partition replaces one contiguous block of rows",
+        ["mem_store::table::Table::plan_compaction (+ 3 closures)", "Partition::{range,total_size_bytes}"],
+        bounds="0-3 (quick) / 0-4 (thorough) partitions tiling the table, inserted in a scrambled order; ids (distinct), row counts (1..2^32), sizes (< 2^40) and combine_factor (<= 1024) symbolic; RwLock as a box (sequential), HashMap as association list, itertools::sorted_by as insertion sort driven by the real closure",
+        spec=scp.PlanCompactionSpec(), stubs=["RwLock::read -> box (no contention)", "HashMap<u64, Arc<Partition>> -> association list", "itertools::sorted_by -> insertion sort driven by the real comparison closure", "Iterator::scan -> eager scan with the real closure"],
+        assumptions=["partition sizes below 2^40 bytes and combine_factor <= 1024 (the u64 product is unchecked beyond that)"])
+
 
 _mirsym()
 
